@@ -4,7 +4,7 @@ from . import _ecell_prop as E
 
 PID = 'C06'
 PROFILE = {'deep': 0.6, 'alloc': 0.9, 'maxutil': 0.35, 'prio0': 0.35, 'pressure': 0.5, 'failure': 0.2,
-           'identity': 0.1, 'affinity': 0.2, 'many_allocs': 3, 'sparse_demand': 0.2}
+           'identity': 0.5, 'affinity': 0.2, 'many_allocs': 3, 'sparse_demand': 0.2, 'few_shapes': 0.3}
 
 
 def run(tier, seed):
